@@ -578,7 +578,8 @@ func (self *Value) updateByteLen(originLen int, address []int, isPacked bool, pa
 			if subLen == 0 {
 				// no need to change length
 				copy(buf[tagOffset:tagOffset+lenOffset], newBytes)
-				continue
+				isPacked = false
+				goto next
 			}
 
 			// split length
@@ -608,6 +609,7 @@ func (self *Value) updateByteLen(originLen int, address []int, isPacked bool, pa
 			FreeBytesToPool(newBytes)
 		}
 
+	next:
 		if pathType == PathStrKey || pathType == PathIntKey {
 			previousType = proto.MAP
 		} else if pathType == PathIndex {
